@@ -78,7 +78,10 @@ func (p *publisher) publishUpdates(reqs requests) {
 	batchedUpdates := make(map[uint64]*pb.KVList)
 	for _, req := range reqs {
 		for _, e := range req.Entries {
-			ids := p.indexer.Get(e.Key)
+			// e.Key is the internal key (user key + 8-byte version suffix). Match patterns
+			// against the user key only, otherwise a pattern longer than the user key can
+			// match into the version bytes.
+			ids := p.indexer.Get(y.ParseKey(e.Key))
 			if len(ids) == 0 {
 				continue
 			}
